@@ -4,7 +4,7 @@
     catalogue entry packs a typed model region ([MRegion]) with conversions to and from [uval] and
     a [probe] that renders a read item through all of its accessors. *)
 From FC Require Import Base.Res Index.IC Index.Stride Region.Region Region.Owned Region.Simple
-  Region.Slice Region.Collapse Region.Consec Region.Columns Codec.Dictionary Region.Items Region.ItemsOk Region.Compare Resource.Res.
+  Region.Slice Region.Collapse Region.Consec Region.Columns Codec.Dictionary Huffman.Huffman Region.Items Region.ItemsOk Region.Compare Resource.Res.
 Set Implicit Arguments.
 
 Inductive uval :=
@@ -207,6 +207,21 @@ Definition m_codec : MRegion := {|
   m_res := @Build_Res codec_owned (fun x : list N * codec => [N.of_nat (length (fst x))])
                       (fun _ => [0%N]);
   m_ord := Some (@Build_ItemOrd codec_owned (codec_items (owned N) (fun v : list N => v) (fun v : list N => v))
+                   (fun x y : list N => Ok (lex_cmp N.compare x y)) (lex_cmp N.compare)) |}.
+
+(** [HuffmanContainer<B>], B an unsigned integer type of [bits] bits *)
+Definition m_huffman (bits : N) : MRegion := {|
+  mr := huffman_region; mi := huffman_items;
+  mw := @Build_Wire huffman_region huffman_items
+          (fun u => match u with
+                    | UL l => omap (fun x => match x with UN n => if (n <? 2 ^ bits)%N then Some n else None | _ => None end) l
+                    | _ => None
+                    end)
+          (fun v : list N => UL (map UN v)) (fun i : nat * nat => upair (fst i) (snd i))
+          (fun x : list N => Ok (UL (map UN x)));
+  m_veq := list_eqb N.eqb;
+  m_res := @Build_Res huffman_region (fun _ => []) (fun _ => []);
+  m_ord := Some (@Build_ItemOrd huffman_region huffman_items
                    (fun x y : list N => Ok (lex_cmp N.compare x y)) (lex_cmp N.compare)) |}.
 
 (** the report of a sequence-like read item: len, is_empty, get(0 .. len+1), iteration, owned *)
